@@ -184,6 +184,38 @@ def run(chk: Check):
             elif t[0] == "P" and q[t[3]] != max(q):
                 chk.fail(f"eps=0 but action {t[3]} with estimate {q[t[3]]!r} chosen, max is {max(q)!r}", {"case": {"script": s}})
     chk.count("determinism_pairs", ndet)
+    reseed_midlife(chk, rng)
+
+
+def reseed_midlife(chk: Check, rng):
+    """'choices are a deterministic function of its seed and the rewards it received': two agents constructed with different seeds, one of
+    which has already answered policy calls, are given the same rewards and are then re-seeded through the public random_state setter
+    (what RLScheduler/Calibrator do with the agent they are handed): from there on their choices must coincide, and coincide with those of
+    an agent constructed with that seed."""
+    from black_it.schedulers.rl.agents.epsilon_greedy import MABEpsilonGreedy
+
+    for it in range(60 if chk.tier == "quick" else 1500):
+        n = rng.randint(2, 8); eps = rng.choice([1.0, 0.5, 0.3, 0.9]); alpha = rng.choice([-1.0, 0.5])
+        s_new = rng.randrange(10 ** 6)
+        lessons = [(rng.randrange(n), rng.choice([0.0, 1.0, rng.random()])) for _ in range(rng.randint(0, 6))]
+        m = rng.randint(5, 30)
+        outs = []
+        for who in ("used", "fresh", "constructed_with_it"):
+            ag = MABEpsilonGreedy(n, alpha, eps, 0.0, random_state=(rng.randrange(10 ** 6) if who != "constructed_with_it" else s_new))
+            if who == "used":
+                for _ in range(rng.randint(1, 5)):
+                    ag.policy(0)
+            for a, r in lessons:
+                ag.learn(0, a, r, 0)
+            if who != "constructed_with_it":
+                ag.random_state = s_new
+            outs.append([int(ag.policy(0)) for _ in range(m)])
+        chk.case(["reseed", n, eps, s_new, lessons], True, {"n_actions": n, "eps": eps, "lessons": len(lessons), "choices_head": outs[1][:6]})
+        chk.count("reseed_midlife")
+        if not (outs[0] == outs[1] == outs[2]):
+            which = "an agent that had already answered policy calls" if outs[0] != outs[1] else "an agent constructed with that seed"
+            chk.fail(f"after random_state = {s_new} and the same rewards, {which} chooses differently from a fresh agent given the same seed: {outs[0][:8]} / {outs[1][:8]} / {outs[2][:8]}",
+                     {"case": {"kind": "reseed", "n": n, "eps": eps, "alpha": alpha, "seed": s_new, "lessons": lessons}})
 
 
 def replay(path: Path) -> int:
